@@ -33,8 +33,15 @@ Proof.
     try apply sim_reverse_range; auto.
 Qed.
 
-Theorem C19_reverse_docstring_refuted : exists D r, sim_reverse D r <> r - D.
-Proof. exact sim_reverse_is_not_documented_formula. Qed.
+(* the documented formulas (regenerated from the docstrings) are the computed ones (regenerated from the code) *)
+Theorem C19_documented_formulas_are_computed :
+  (forall D r, doc_exponential D r = sim_exponential D r) /\
+  (forall D r, doc_gaussian D r = sim_gaussian D r) /\
+  (forall D r a, doc_reciprocal D r a = sim_reciprocal D r a) /\
+  (forall D r, doc_reverse D r = sim_reverse D r) /\
+  (forall X r x0, doc_squash_gaussian X r x0 = squash_gaussian X r x0) /\
+  (forall X r x0, doc_squash_exponential X r x0 = squash_exponential X r x0).
+Proof. exact documented_formulas_are_computed. Qed.
 
 Theorem C19_squash_logistic : forall r x0, 0 < r ->
   (forall X1 X2, X1 <= X2 -> squash_logistic X1 r x0 <= squash_logistic X2 r x0) /\
